@@ -102,7 +102,13 @@ pub fn opt_transform(parent_node: &Node, tag_name: &str) -> Result<Option<Transf
 }
 
 pub fn gen_string<T: Display>(tag_name: &str, value: &T) -> String {
+    let value = cdata_escape(&value.to_string());
     format!("<{tag_name} type=\"String\"><![CDATA[{value}]]></{tag_name}>\n")
+}
+
+/// A CDATA section cannot contain its own end marker, so it needs to be split into two sections.
+pub fn cdata_escape(value: &str) -> String {
+    value.replace("]]>", "]]]]><![CDATA[>")
 }
 
 pub fn gen_float<T: Display>(tag_name: &str, value: T) -> String {
